@@ -210,6 +210,89 @@ fn main() {
         };
         let mut big_cut_counts = Vec::new();
 
+        // ------------------------------------------------------------------ (0) the async BAM record reader over an
+        // uncompressed stream whose source answers `Interrupted` once near the end: every cut x transfer size x
+        // position of the interruption (none / at the end-reporting read / 1..3 bytes before it). A reader that
+        // restarts its "how much have I read" count after a retry reports a cut inside a length prefix whose
+        // delivered bytes are zero (block_size = 256 / 512: `eng-` documents) as a clean end of file.
+        {
+            let bams: Vec<&Doc> = docs.iter().filter(|d| d.format == Format::Bam && !d.big && d.inner.is_some()).collect();
+            let chunks = [usize::MAX, 1, 3];
+            let mut cases: Vec<(usize, usize)> = Vec::new(); // (doc, cut)
+            for (i, d) in bams.iter().enumerate() {
+                let n = d.inner.as_ref().unwrap().bytes.len();
+                for k in 0..=n {
+                    cases.push((i, k));
+                }
+            }
+            let full: Vec<Vec<String>> = bams.iter().map(|d| vnd::adrive::bam_raw_async_log(&d.inner.as_ref().unwrap().bytes, usize::MAX, None, 100_000)).collect();
+            for (d, l) in bams.iter().zip(&full) {
+                if !l.last().is_some_and(|x| vnd::is_end_eof(x)) || l.len() != d.inner.as_ref().unwrap().record_ends.len() + 2 {
+                    vmc::machinery(format!("raw async BAM log of the complete stream of {} is not header + records + EOF: {:?}", d.name, l.last()));
+                }
+            }
+            let per = (chunks.len() * 5) as u64;
+            let (bams, cases, full, note) = (&bams, &cases, &full, &note);
+            ctx.sweep(
+                "async_bam_interrupted_cuts",
+                cases.len() as u64 * per,
+                |i| {
+                    let (di, k) = cases[(i / per) as usize];
+                    format!("doc={} uncompressed stream cut={k} variant={}", bams[di].name, i % per)
+                },
+                |i| -> Outcome {
+                    let (di, k) = cases[(i / per) as usize];
+                    let v = (i % per) as usize;
+                    let (chunk, iv) = (chunks[v / 5], v % 5);
+                    let d = bams[di];
+                    let inner = d.inner.as_ref().unwrap();
+                    let interrupt_at = match iv {
+                        0 => None,
+                        j => match k.checked_sub(j - 1) {
+                            Some(p) => Some(p),
+                            None => return Ok(()),
+                        },
+                    };
+                    let got = vnd::adrive::bam_raw_async_log(&inner.bytes[..k], chunk, interrupt_at, 100_000);
+                    note(1_000_000 + di, 9, &got);
+                    let m = inner.record_ends.partition_point(|&e| e <= k);
+                    let at_boundary = k == inner.header_end || inner.record_ends.binary_search(&k).is_ok();
+                    let (want_body, want_end): (&[String], &str) = if k < inner.header_end { (&[], "Err") } else { (&full[di][..1 + m], if at_boundary { "EOF" } else { "Err" }) };
+                    let end = got.last().unwrap();
+                    let got_end = if vnd::is_end_eof(end) { "EOF" } else if vnd::is_end_err(end) { "Err" } else { "?" };
+                    let body = &got[..got.len() - 1];
+                    let body_ok = body == want_body;
+                    if body_ok && got_end == want_end {
+                        return Ok(());
+                    }
+                    // the interruption itself may surface as an error (tokio's read_exact does not retry
+                    // `Interrupted`, and the property allows "a prefix, then an error"): with an interruption
+                    // injected, an error after any prefix of the complete records is accepted; a clean end is
+                    // accepted only at a boundary after exactly the complete records
+                    if iv != 0 && got_end == "Err" && k >= inner.header_end && body.len() <= want_body.len() && body == &want_body[..body.len()] {
+                        return Ok(());
+                    }
+                    if iv != 0 && got_end == "Err" && k < inner.header_end && body.is_empty() {
+                        return Ok(());
+                    }
+                    let symptom = if !body_ok { "records-differ-from-prefix" } else if got_end == "EOF" { "clean-eof-inside-a-record" } else { "error-at-a-record-boundary" };
+                    Err(Violation::new(
+                        format!("format=BAM layer=raw-async api=Async cut={} symptom={symptom} interruption={}", if at_boundary { "boundary" } else if k < inner.header_end { "in-header" } else { "in-record" }, if iv == 0 { "none" } else { "once-near-end" }),
+                        format!(
+                            "doc={} uncompressed BAM stream ({} bytes) truncated to {k}; bam::async::io::Reader::from(source), read_header + read_record_buf loop; source delivers <= {} bytes per read and answers Interrupted once when {:?} bytes have been delivered; stream (hex): {}",
+                            d.name,
+                            inner.bytes.len(),
+                            if chunk == usize::MAX { "all available".to_string() } else { chunk.to_string() },
+                            interrupt_at,
+                            hex_full(&inner.bytes)
+                        ),
+                        format!("{} complete record(s), then {want_end}", m),
+                        format!("{} line(s) before the end, then {}", got.len() - 1, short(end)),
+                    ))
+                },
+            );
+        }
+
         // ------------------------------------------------------------------ (a) file-level cuts
         let mut rows: Vec<Row> = Vec::new();
         for (i, d) in docs.iter().enumerate() {
